@@ -29,7 +29,11 @@ type vState struct {
 	known    map[string]bool
 	tier     string
 	failures []string
+	region   string
 }
+
+// vRegion: until cleared with "", every assertion is reported under this label.
+func vRegion(label string) { vS.region = label }
 
 func vIsFindingLabel(l string) bool {
 	if len(l) < 3 || l[0] != 'F' {
@@ -119,6 +123,9 @@ func vOrdered(keys [][]byte) {
 }
 
 func vAssert(c bool, label string) {
+	if vS.region != "" {
+		label = vS.region
+	}
 	if !c {
 		if vIsFindingLabel(label) {
 			// region of a recorded finding: note it and keep going (the executor does the same)
